@@ -135,7 +135,7 @@ CHECKS = {
         "engine": "E1",
         "technique": "stateless model checking: deviation-bounded DFS over all interleavings of the instrumented informer/monitor code under a controlled scheduler",
         "level_text": "Level 1: the real kubeEventsManager, monitor and resourceInformer sources are compiled with their lock, channel, goroutine-start operations and unsynchronised flags as scheduling points and run under a hand-written controlled scheduler; client-go informers are replaced by a hub with one FIFO and one delivery thread per handler. For every scenario (6 histories of <=3 changes over 2 objects / 2 namespaces x {no filter, object-valued jqFilter, full objects dropped, Modified only} x {0,1} extra snapshot readers, namespace.labelSelector with a namespace appearing after start, slow consumer) the environment timing (deliveries before the Synchronization view and before the unlock, reader phase) is enumerated and ALL interleavings of informer delivery, Synchronization (Snapshot; hook; EnableKubeEventCb), extra readers and the event-channel consumer with at most 2 (quick; 1 for the larger scenarios) / 3 (thorough) pre-emptions are executed; each is checked with the suffix oracle against the environment's own mutation log (no early event, per-object order, no loss). Level 2: the real ShellOperator.Start() with a plain binding, a binding in its own queue and two bindings of one group, the Synchronization execution failing 0..1 (2) times, changes arriving while it fails and afterwards (each later change at once or after the operator went quiet), all schedules within 1 (2) deviations of the default scheduler; oracle on what the hook is given: no Event before the successful Synchronization, versions in order, the hook's view ends at the cluster's final state (for a group: the last Group execution shows the final state of every binding). A hook with two kubernetes bindings without a name is one of the operator-level configurations.",
-        "level_note": "Trusted: the hub as a model of client-go's per-handler ordered delivery (its event sequences are compared with real client-go informers on the fake cluster by the conformance part of C02), the fake cluster, the scheduler (vrt), the process stand-in at level 2. Scheduling granularity: lock acquisition, channel ops, goroutine start, listed racy fields (cross-checked by part kemrace, a free-running race-detector pass with real client-go informers that adds nothing to the counters); sequential consistency assumed. Level 2 also holds one execution at a gate while the next change arrives. Bounded: histories, configurations and the bounds are listed in the evidence.",
+        "level_note": "Trusted: the hub as a model of client-go's per-handler ordered delivery (its event sequences are compared with real client-go informers started by the repository's own FactoryStore on the fake cluster by part hubconf, which runs here as well as under C02: all histories up to depth 3 / 4 x registration moments of 1-2 handlers sharing one informer, incl. stopping the handler that started the shared informer while the other must go on receiving - the factory code the hub replaces is thereby inside this property's check), the fake cluster, the scheduler (vrt), the process stand-in at level 2. Scheduling granularity: lock acquisition, channel ops, goroutine start, listed racy fields (cross-checked by part kemrace, a free-running race-detector pass with real client-go informers that adds nothing to the counters); sequential consistency assumed. Level 2 also holds one execution at a gate while the next change arrives. Bounded: histories, configurations and the bounds are listed in the evidence.",
         "rule": "DFS over choice sequences (thread to run at each scheduling point) with at most N pre-emptions; non-trivial = execution with >= 1 pre-emption; distinct = distinct (Synchronization view, delivered event sequence) per scenario",
         "assumptions": ["informer hub models client-go: per-handler FIFO, initial LIST enqueued at registration, arbitrary lag"],
         "parts": [
@@ -143,6 +143,8 @@ CHECKS = {
                  extra={"pkg/kube_events_manager": ["zz_verif_hub.go"]}, instrument={"files": KEM_INSTR}, gomaxprocs=1),
             part("kemrace", "pkg/kube_events_manager", "TestVerifRaceKEM", ["zz_verif_race_test.go", "zz_verif_hubconf_test.go", "zz_verif_c01_test.go"], shards={"quick": 6, "thorough": 12},
                  extra={"pkg/kube_events_manager": ["zz_verif_hub.go"]}, instrument={"files": KEM_INSTR}, race=True, gomaxprocs=4),
+            part("hubconf", "pkg/kube_events_manager", "TestVerifHubConformance", ["zz_verif_hubconf_test.go", "zz_verif_c01_test.go"], shards={"quick": 16, "thorough": 16},
+                 extra={"pkg/kube_events_manager": ["zz_verif_hub.go"]}, instrument={"files": KEM_INSTR}),
             part("c01l2", "pkg/shell-operator", "TestVerifC01L2", ["zz_verif_c01_test.go", "zz_verif_c03_test.go", "zz_verif_fixture_test.go"], shards={"quick": 10, "thorough": 13},
                  extra=OP_EXTRA, instrument=OP_INSTR, gomaxprocs=1),
         ],
@@ -151,7 +153,7 @@ CHECKS = {
         "level": "model_checking",
         "engine": "E1",
         "technique": "stateless model checking of the assembled operator and of the queue set alone under a controlled scheduler (deviation-bounded DFS), virtual clock",
-        "level_text": "The real ShellOperator.Start() (task queues and their worker loops, queue set, events handler, hook and bindings controllers, schedule manager, kube events manager) runs under the controlled scheduler with a virtual clock; hook processes, informers, HTTP server and cron's goroutine are behind seams. Two hooks with kubernetes and schedule bindings in `main` and `q2`, an environment thread producing 2 ticks and 2 changes per namespace, three variants (no stall, a q2 hook that never returns, a main hook that fails forever). After start-up (run on the default schedule; C06 explores it) ALL schedules with at most 2 (quick) / 3 (thorough) deviations from the deterministic default scheduler (delay bounding: keep the running thread, else lowest thread id; every other choice, pre-emptive or not, costs one) are executed. Oracle per execution: handler intervals of one queue never overlap, the task handed over is the queue's head, every context runs in the queue its binding names, per-binding event order, and the queue that is not stalled executes all its tasks. Part q (the queue set alone, delay bound 2 / 3): four started queues, the worker of one inside a handler that does not return, one of nine set operations (Remove of the stalled / an idle / an absent queue, NewNamedQueue, Iterate, DoWithLock, GetByName, Stop of the stalled queue) from another thread, a task added the events handler's way and a task whose handler looks its own queue up - both handled while the stalled queue is still stalled.",
+        "level_text": "The real ShellOperator.Start() (task queues and their worker loops, queue set, events handler, hook and bindings controllers, schedule manager, kube events manager) runs under the controlled scheduler with a virtual clock; hook processes, informers, HTTP server and cron's goroutine are behind seams. Two hooks with kubernetes and schedule bindings in `main` and `q2`, an environment thread producing 2 ticks and 2 changes per namespace, three variants (no stall, a q2 hook that never returns, a main hook that fails forever). After start-up (run on the default schedule; C06 explores it) ALL schedules with at most 2 (quick) / 3 (thorough) deviations from the deterministic default scheduler (delay bounding: keep the running thread, else lowest thread id; every other choice, pre-emptive or not, costs one) are executed. Oracle per execution: handler intervals of one queue never overlap, the task handed over is the queue's head, every context runs in the queue its binding names, per-binding event order, and the queue that is not stalled executes all its tasks. Part q (the queue set alone, delay bound 2 / 3): four started queues, the worker of one inside a handler that does not return, one of nine set operations (Remove of the stalled / an idle / an absent queue, NewNamedQueue, Iterate, DoWithLock, GetByName, Stop of the stalled queue) from another thread, a task added the events handler's way and a task whose handler looks its own queue up - both handled while the stalled queue is still stalled. Part h (one real TaskQueue, delay bound 1 / 2): after a first handler result that makes the worker wait (Fail back-off, Repeat, DelayBeforeNextTask of 50 ms / 2 s with Success, 100 ms with Keep) one of AddFirst / Remove(head) / Filter(drop head) / AddFirst+Remove is issued at every enumerated virtual instant strictly inside the delay (1 ms .. 3 s); the handler calls after the delay must be the reference list's tasks head first - a task put at the head runs next, a removed task never runs again.",
         "level_note": "Trusted: scheduler (vrt), hub and process stand-in as environment models, fake cluster. Scheduling points: lock/channel/select/timer operations (locks of every file of the operator's packages) and listed racy fields; sequential consistency. Part oprace is a free-running race-detector pass over the same scenario with real goroutines and real client-go informers: it cross-checks that no unsynchronised access is missing from the list (an unlisted one is reported as a cap, never as a violation) and adds nothing to the counters.",
         "rule": "DFS over thread choices at scheduling points with at most N pre-emptions per stall variant; non-trivial = execution with >= 1 pre-emption; distinct = distinct sequence of (hook, queue, contexts) executions",
         "parts": [
@@ -160,6 +162,8 @@ CHECKS = {
             part("c03q", "pkg/task/queue", "TestVerifC03q", ["zz_verif_c03q_test.go", "zz_verif_c05_test.go"], shards={"quick": 9, "thorough": 9}, gomaxprocs=1,
                  instrument={"files": [{"path": "pkg/task/queue/task_queue.go", "sync": True, "time": True, "conc": True, "touch": ["started", "q.Status"]},
                                        {"path": "pkg/task/queue/queue_set.go", "sync": True, "time": True, "conc": True, "touch": ["q.Status"], "mapranges": ["tqs.Queues"]}]}),
+            part("c03h", "pkg/task/queue", "TestVerifC03h", ["zz_verif_c03h_test.go", "zz_verif_c05_test.go", "zz_verif_c17b_test.go"], shards={"quick": 8, "thorough": 16}, gomaxprocs=1,
+                 instrument={"files": [{"path": "pkg/task/queue/task_queue.go", "sync": True, "time": True, "conc": True, "touch": ["started", "q.Status"]}]}),
             part("oprace", "pkg/shell-operator", "TestVerifRaceOperator", ["zz_verif_race_test.go", "zz_verif_c03_test.go", "zz_verif_fixture_test.go"], shards={"quick": 4, "thorough": 8},
                  extra=OP_EXTRA, instrument=OP_INSTR, race=True, gomaxprocs=4),
         ],
